@@ -355,3 +355,41 @@ def json_roundtrip(o):
     if o is None or isinstance(o, (bool, int, float, str)):
         return o
     raise TypeError("Object of type %s is not JSON serializable" % type(o).__name__)
+
+
+# ---- json module proxy for acnportal.acnsim.base (public to_json()/from_json() on symbolic state) ----------
+
+
+class JsonToken(str):
+    """the 'string' produced by the json proxy: carries the round-tripped structure instead of text"""
+
+    data = None
+
+
+class JsonProxy(types.ModuleType):
+    def __init__(self, real):
+        super().__init__("json_proxy")
+        self._real = real
+        self.n = 0
+
+    def __getattr__(self, k):
+        return getattr(self._real, k)
+
+    def dumps(self, o, cls=None, **kw):
+        self.n += 1
+        t = JsonToken("{\"symbolic-json-document\": %d}" % self.n)
+        t.data = json_roundtrip(o)
+        return t
+
+    def loads(self, s, **kw):
+        if isinstance(s, JsonToken):
+            return json_roundtrip(s.data)  # fresh containers on every load
+        return self._real.loads(s, **kw)
+
+
+def install_json(cx):
+    """acnportal.acnsim.base.json -> structural model of dumps/loads (symbolic mode only); concrete replays use the real json"""
+    import json as real_json
+
+    base = mod("acnportal.acnsim.base")
+    cx.patch(base, "json", JsonProxy(real_json), sym_only=True)
